@@ -374,3 +374,6 @@ func verifHashAgree(a, b Object) bool {
 //@ requires m != nil
 //@ modifies m.items
 //@ ensures[C16.map.clear] forallT(k, string, !mhas(m, k))
+
+// goTypeRegistry / typeConverters: guarded by goTypeMutex (guard obligations in contracts_c05_verif.go).
+//@ scan[C09.globals.object] C09 pkgglobals github.com/risor-io/risor/object: goTypeRegistry<-newGoType typeConverters<-SetTypeConverter typeConverters<-createTypeConverter
